@@ -112,6 +112,9 @@ class ExprMixin:
     def e_BinOp(self, node, st):
         a, b = self.eval(node.left, st), self.eval(node.right, st)
         op = BINOP.get(type(node.op), 'binop')
+        if op in ('div', 'pow', 'floordiv', 'mod'):
+            # the operands as evaluated (the normal form of the result no longer shows what was divided by what)
+            self.log(st, 'arith', node, op=op, left=a, right=b)
         if op == 'add' and isinstance(a, Tup) and isinstance(b, Tup) \
                 and 'vec' not in (a.kind, b.kind):
             return Tup(a.items + b.items, a.kind)
